@@ -1,6 +1,7 @@
 """C91 - stand-alone driver for the specification-growth part (checks/growth_pli_dump.py); not a listed property.
 `bin/check C91 --tier quick|thorough` runs IntervalPli and PacketDump against the tree named by VERIF_REPO.
-VERIF_GROWTH_ONLY=IntervalPli|PacketDump restricts the run to one component.  Exit 0 also when NOTE lines are printed:
+VERIF_GROWTH_ONLY=IntervalPli|PacketDump restricts the run to one component; VERIF_GROWTH_PROBES=1 also runs the
+expectation probes (PROBE: lines).  Exit 0 also when NOTE lines are printed:
 a divergence from a growth specification is a note, never a violation (exit 2 = infrastructure, as everywhere)."""
 import os
 
@@ -18,6 +19,8 @@ def run(ctx):
     notes = growth.run_growth(ctx, only=os.environ.get("VERIF_GROWTH_ONLY") or None)
     ctx.replay_mode = not os.environ.get("VERIF_GROWTH_EVIDENCE")     # no evidence/C91.json unless asked for
     print("GROWTH notes=%d" % len(notes), flush=True)
+    if os.environ.get("VERIF_GROWTH_PROBES"):       # expectation probes (see growth_pli_dump.PROBES); never affect the verdict
+        growth.run_probes(ctx)
     return vlib.finish(ctx, "model_checking", RULE)
 
 
